@@ -282,6 +282,17 @@ func (w *World) finalOracles() {
 						}
 					}
 				}
+				if kd == "udp" && w.k.OriginOf(fd) == "dup" {
+					// the duplicate of a connected UDP socket handed to Register/Enroll
+					c = "dup-never-opened"
+					dupNever++
+					for _, cs := range w.conns {
+						if cs != nil && cs.udp && cs.fd == fd && cs.gen == w.k.FdGen(fd) {
+							c = "udp-opened"
+							dupNever--
+						}
+					}
+				}
 				class[c] = true
 			}
 			if lost := len(w.regLost) + w.clientCalls; dupNever > lost {
